@@ -1,4 +1,5 @@
 import Cello.Fmt
+import Cello.FmtSize
 import Cello.Table
 import Cello.Iter
 import CelloGen.Fmt
@@ -30,7 +31,8 @@ import Driver.Common
 
    O lines (compared with harness/h_fmt.c):
      O W exc=<e> pos=<p> calls=<frag:val;…> str=<bytes>      recording sink in front of a String
-     O S exc=<e> pos=<p> str=<bytes>                          plain String sink
+     O S exc=<e> pos=<p> str=<bytes> cap=<n>                  plain String sink; cap = size of its heap block (block-level replay of the call log
+                                                              through `String_Format_To` as read from the source: Cello/FmtSize.lean `replayBlock`)
      O F exc=<e> pos=<p> out=<bytes>                          File sink whose content was <old>[0..start)
    R lines (not compared): marks, agreement of the machine with the reference semantics on the parsed segments. -/
 open Cello.Fmt
@@ -181,6 +183,10 @@ def primOf (tab : List ((Str × PVal) × Option Str)) : Prim :=
     rej := fun frag v => tab.lookup (frag, v) == some none
     strSteps := CelloGen.Fmt.stringFormatToSteps.map SStep.ofCode }
 
+/-- `String_Format_To` with its size expressions, from the source -/
+def sftProg : SftProg :=
+  SftProg.ofGen CelloGen.Fmt.stringFormatToSteps CelloGen.Fmt.stringFormatToReallocSize CelloGen.Fmt.stringFormatToWriteOffset
+
 def showVal : PVal → String
   | .none => "n"
   | .cstr s => "s" ++ hexOf s
@@ -281,7 +287,11 @@ def runP (op : Op) (wide : Bool) : IO Unit := do
   let rS := printTo cfg prim scfg depthFuel op.fmt op.args ⟨.str op.old, op.start, []⟩
   let rF := printTo cfg prim scfg depthFuel op.fmt op.args ⟨.file (op.old.take op.start), op.start, []⟩
   IO.println s!"O W exc={excName rS.oc} pos={posStr rS} calls={showCalls rS.out.calls} str={hexOf (sinkBytes rS.out.sink)}"
-  IO.println s!"O S exc={excName rS.oc} pos={posStr rS} str={hexOf (sinkBytes rS.out.sink)}"
+  -- block level: the call log replayed through String_Format_To statement by statement
+  let (blk, bpos, bok) := replayBlock sftProg prim rS.out.calls (blockOf op.old) op.start
+  let blkAgree := if !bok then "UB" else if (accepted prim rS.out.calls).isEmpty then (if blk = blockOf op.old then "same" else "DIFF")
+    else if blk = blockOf (sinkBytes rS.out.sink) ∧ (rS.oc ≠ .ok ∨ bpos = rS.out.pos) then "same" else "DIFF"
+  IO.println s!"O S exc={excName rS.oc} pos={posStr rS} str={hexOf (sinkBytes rS.out.sink)} cap={blk.length}"
   IO.println s!"O F exc={excName rF.oc} pos={posStr rF} out={hexOf (sinkBytes rF.out.sink)}"
   -- self-check of the model against its reference semantics (not compared with the harness)
   let shw := showD cfg prim scfg depthFuel
@@ -295,7 +305,7 @@ def runP (op : Op) (wide : Bool) : IO Unit := do
     | some (_, a, b) => (a, b)
     | none => (0, 0)
   let nrej := (rS.out.calls.filter fun c => prim.rej c.frag c.val).length
-  IO.println s!"R len={op.fmt.length} rd={rS.marks.rdMax} wr={rS.marks.wrMax} ref={agree} segs={nseg} specs={nsp} args={op.args.length} calls={rS.out.calls.length} rejected={nrej}"
+  IO.println s!"R len={op.fmt.length} rd={rS.marks.rdMax} wr={rS.marks.wrMax} ref={agree} segs={nseg} specs={nsp} args={op.args.length} calls={rS.out.calls.length} rejected={nrej} blk={blkAgree}"
 
 def runA (op : Op) : IO Unit := do
   let prim := primOf op.tab
